@@ -62,6 +62,26 @@ SEEDS = {
  'c19r3-strtok-header-split': ('C19', 'two threads feeding Content-Type header lines at the same time'),
  'c20r2-add-overflow-guard': ('C20', 'a terminated ten-byte encoding whose tenth byte is 0x82..0xff'),
  'c20r3-unterminated-tenth-byte': ('C20', 'ten bytes without a stop bit whose tenth byte is 0x00 or 0x01'),
+ 'c01r4-eager-end-no-eof': ('C01', 'compression none and a read request that ends exactly on the last byte of the data, followed by one more read: -1 instead of 0 (unzck on a multiple of 32 KiB unlinks its complete output)'),
+ 'c02r4-header-verdict-bang': ('C02', 'a header whose index and data digests were rewritten for altered data while the header digest in the lead is stale, read after a validation call'),
+ 'c03r4-optelem-add-wrap': ('C03', 'sealed header with optional elements: count 2^64-1 and an element size of 2^64-11 - the cursor wraps to the same element and the parser never ends'),
+ 'c04r4-fail-no-ranges-off': ('C04', 'a server that answers 200 with the whole file when too many ranges are asked for, more separate missing ranges than its limit, --fail-no-ranges not given'),
+ 'c05r4-skip-guard-wrong-entry': ('C05', 'a chunk that became valid (copy from a second source) after the range was computed, and damaged bytes for it in the response'),
+ 'c06r4-lead-reencoded': ('C06', 'a lead that spells the checksum type or header size as a longer equivalent compressed integer, stored digest untouched'),
+ 'c07r4-type-change-drops-digest': ('C07', 'pin type T1, pin digest D, pin another type T2 (no new digest), then offer a file whose digest is not D'),
+ 'c08r4-short-read-write-count': ('C08', 'a short (positive) read() on the source descriptor in the middle of a chunk copy'),
+ 'c09r4-static-scan-buffer': ('C09', 'two contexts scanned from two threads with one read() landing between the other read and its hash update (same change as c19r4)'),
+ 'c10r4-merge-after-limit': ('C10', 'a finite limit L >= 2 reached by a chunk that directly continues the previous range'),
+ 'c11r4-allvalid-no-truncate': ('C11', 'pre-existing longer target and an interruption after the last missing chunk byte but before the final ftruncate, then a restart'),
+ 'c12r4-count-before-write': ('C12', 'write() on the target fails on the last 32 KiB block of a chunk during zck_copy_chunks'),
+ 'c13r4-count-compare-narrowed': ('C13', 'a chunk-count field equal to the real entry count modulo 2^32 (5..10 byte compressed integer), header re-sealed'),
+ 'c14r4-scan-leaves-hash-closed': ('C14', 'zck_validate_checksums()/zck_find_valid_chunks() == 1, then zck_get_chunk_data() on the same context'),
+ 'c15r4-verdict-split-keeps-buffer': ('C15', 'a damaged zstd chunk plus a digest-finalisation fault at its end, then zck_clear_error() and another read'),
+ 'c16r4-auto-max-raised': ('C16', 'automatic chunking with ZCK_CHUNK_MAX below 8192: every chunk exceeds the configured maximum'),
+ 'c17r4-regfree-on-new-boundary': ('C17', 'boundary header, body fragment, a second boundary header on the same zckDL without reset, another body fragment: regexec on a released pattern'),
+ 'c18r4-totlen-width': ('C18', 'bundled build, one hash context fed 2^29 bytes or more'),
+ 'c19r4-static-scan-buffer': ('C19', 'two threads validating two different files at once'),
+ 'c20r4-bound-after-stop': ('C20', 'a compressed integer expected exactly at the end of the buffer (*length == max_length)'),
 }
 PROPS = ['C%02d' % i for i in range(1, 21)]
 def sh(cmd, **kw):
